@@ -270,6 +270,7 @@ func corr(args []string) {
 	out := fs.String("out", "", "output directory")
 	n := fs.Int("n", 1500, "number of random files")
 	nbig := fs.Int("nbig", 200, "number of random files with more than 12 batches")
+	naug := fs.Int("naug", 400, "number of files of the shared generator with split / duplicated batches")
 	corpus := fs.String("corpus", "", "corpus directory")
 	fs.Parse(args)
 	cases := hx.Create(filepath.Join(*out, "cases.txt"))
@@ -320,6 +321,9 @@ func corr(args []string) {
 	for i := 0; i < *nbig; i++ {
 		emit(genSpec(r, pickShape(r), true))
 	}
+	for i := 0; i < *naug; i++ {
+		emit(genAug(r))
+	}
 	cases.Close()
 	impl.Close()
 	specs.Close()
@@ -355,17 +359,17 @@ func loadSpec(path string) (fileSpec, error) {
 		Case  *fileSpec `json:"case"`
 	}
 	if err := json.Unmarshal(raw, &wrap); err == nil {
-		if wrap.Input != nil && len(wrap.Input.Batches) > 0 {
+		if wrap.Input != nil && (len(wrap.Input.Batches) > 0 || wrap.Input.Aug != nil) {
 			return *wrap.Input, nil
 		}
-		if wrap.Case != nil && len(wrap.Case.Batches) > 0 {
+		if wrap.Case != nil && (len(wrap.Case.Batches) > 0 || wrap.Case.Aug != nil) {
 			return *wrap.Case, nil
 		}
 	}
 	if err := json.Unmarshal(raw, &s); err != nil {
 		return s, err
 	}
-	if len(s.Batches) == 0 {
+	if len(s.Batches) == 0 && s.Aug == nil {
 		return s, fmt.Errorf("no batches in %s", path)
 	}
 	return s, nil
@@ -633,7 +637,7 @@ func oracle(args []string) {
 				nontrivial++
 			}
 		}
-		if len(samples) < 4 && len(s.Batches) <= 3 && strings.Contains(label, "merged") {
+		if len(samples) < 4 && s.Aug == nil && len(s.Batches) <= 3 && strings.Contains(label, "merged") {
 			samples = append(samples, map[string]any{"case": s, "exercised": label, "failures": len(fails)})
 		}
 		for _, f := range fails {
@@ -646,7 +650,11 @@ func oracle(args []string) {
 	}
 	r := rng.FromEnv(112)
 	for i := 0; i < *n; i++ {
-		run(genSpec(r, pickShape(r), i%8 == 7))
+		if i%4 == 3 {
+			run(genAug(r))
+		} else {
+			run(genSpec(r, pickShape(r), i%8 == 6))
+		}
 	}
 	summ := map[string]any{
 		"kind": "summary", "evaluations": evals, "distinct_nontrivial": nontrivial,
